@@ -74,6 +74,7 @@ Record emission := {
   e_parnames : list (Z * string);
   e_unames : list (Z * string);
   e_dfdp : list (Z * Z);                 (* dfdp(row, column) for the requested (row, parameter) entries *)
+  e_bvp : list Z;                        (* args(i) read by the BCND / ICND residuals, one per `par_<name>` token *)
   e_ndim : Z;
   e_npar : Z
 }.
@@ -85,7 +86,8 @@ Record model := {
   m_states : list string;                (* state variables in state-vector order *)
   m_val : list (string * Qc);            (* values of parameters and initial values of state variables *)
   m_dfdp : list (nat * string);          (* (row, parameter) pairs with a non-zero derivative, in emission order *)
-  m_over : list (string * Z)             (* user overrides of integer auto constants *)
+  m_over : list (string * Z);            (* user overrides of integer auto constants *)
+  m_bvp : list string                    (* the `par_<name>` tokens of boundary_conditions / integral_constraints, in order *)
 }.
 
 Definition max_list (l : list Z) : Z := fold_right Z.max 0 l.
@@ -94,9 +96,13 @@ Definition number_from_1 (l : list string) : list (Z * string) := map (fun p => 
 Definition emit_with (param_indices : list string -> list Z) (m : model) : emission :=
   let decl := register (register [] (m_events m)) (m_args m) in
   let sig := "t"%string :: "y"%string :: head_args decl (m_ret m) (m_args m) in
-  let fargs := auto_order decl (skipn 3 sig) in
+  let rhs_args := auto_order decl (skipn 3 sig) in
+  (* _collect_bvp_extra_params (deduplicated, order of first mention), kept when declared and not a vector-field argument;
+     the PAR-slot vector is rhs_args + bvp_extras, the forwarding call passes the first |rhs_args| slots *)
+  let extras := filter (fun p => mem p decl && negb (mem p rhs_args)) (dedupe (m_bvp m)) in
+  let fargs := (rhs_args ++ extras)%list in
   let idx := param_indices fargs in
-  let rhs_idx := firstn (List.length fargs) idx in
+  let rhs_idx := firstn (List.length rhs_args) idx in
   let name_to_idx := combine fargs idx in
   {| e_sig := sig;
      e_call := rhs_idx;
@@ -106,6 +112,7 @@ Definition emit_with (param_indices : list string -> list Z) (m : model) : emiss
      e_unames := number_from_1 (m_states m);
      e_dfdp := flat_map (fun rp => match lookup_last name_to_idx (snd rp) with
                                     | Some c => [(Z.of_nat (fst rp) + 1, c)] | None => [] end) (m_dfdp m);
+     e_bvp := flat_map (fun p => match lookup_last name_to_idx p with Some c => [c] | None => [] end) (m_bvp m);
      e_ndim := Z.of_nat (List.length (m_states m));
      e_npar := match idx with [] => 1 | _ => max_list idx end |}.
 
@@ -127,18 +134,27 @@ Fixpoint index_of (x : string) (l : list string) : option nat :=
 Definition slot_of (ps : list string) (p : string) : Z :=
   match index_of p ps with Some i => slot (Z.of_nat i) | None => 0 end.
 
+(* parameters that only the boundary / integral constraints mention: they get the slots behind the vector-field parameters,
+   in the order in which the constraints mention them *)
+Definition spec_extras (vars : list string) (ps bvp : list string) : list string :=
+  filter (fun p => mem p vars && negb (mem p ps)) (dedupe bvp).
+Definition spec_all (vars : list string) (m : model) : list string :=
+  let ps := spec_params vars (m_args m) (m_ret m) in (ps ++ spec_extras vars ps (m_bvp m))%list.
+
 Definition spec_emit (vars : list string) (m : model) : emission :=
   let ps := spec_params vars (m_args m) (m_ret m) in
-  let s := slot_of ps in
+  let all := spec_all vars m in
+  let s := slot_of all in
   {| e_sig := "t"%string :: "y"%string :: m_ret m :: ps;
      e_call := map s ps;
-     e_stpnt := map (fun p => (s p, lookupq (m_val m) p, p)) ps;
+     e_stpnt := map (fun p => (s p, lookupq (m_val m) p, p)) all;
      e_stpnt_y := map (fun p => (fst p, lookupq (m_val m) (snd p), snd p)) (number_from_1 (m_states m));
-     e_parnames := map (fun p => (s p, p)) ps;
+     e_parnames := map (fun p => (s p, p)) all;
      e_unames := number_from_1 (m_states m);
-     e_dfdp := flat_map (fun rp => if mem (snd rp) ps then [(Z.of_nat (fst rp) + 1, s (snd rp))] else []) (m_dfdp m);
+     e_dfdp := flat_map (fun rp => if mem (snd rp) all then [(Z.of_nat (fst rp) + 1, s (snd rp))] else []) (m_dfdp m);
+     e_bvp := flat_map (fun p => if mem p all then [s p] else []) (m_bvp m);
      e_ndim := Z.of_nat (List.length (m_states m));
-     e_npar := match ps with [] => 1 | _ => max_list (map s ps) end |}.
+     e_npar := match all with [] => 1 | _ => max_list (map s all) end |}.
 
 (* hypotheses of the refinement theorem (guard of the correspondence): the declared variables are registered first
    (declaration-order pre-registration in parser.parse_equations), they are distinct, every argument of the vector
@@ -153,7 +169,8 @@ Fixpoint prefixb (a b : list string) : bool :=
   end.
 Definition wf (vars : list string) (m : model) : bool :=
   nodupb vars && prefixb vars (m_events m) && mem (m_ret m) (m_args m) && negb (mem (m_ret m) vars) &&
-  forallb (fun a => String.eqb a (m_ret m) || mem a vars) (m_args m).
+  forallb (fun a => String.eqb a (m_ret m) || mem a vars) (m_args m) &&
+  forallb (fun p => mem p vars) (m_bvp m).          (* every par_<name> token names a declared variable of the model *)
 
 (* ------------------------------------------------------------------------------------------------ exported vector field *)
 (* polynomial right-hand sides: a term = coefficient * product of parameters * product of state components *)
@@ -175,8 +192,8 @@ Definition exported_pv (e : emission) (par : list Qc) (p : string) : Qc :=
 Definition exported_vf (e : emission) (par y : list Qc) (eqs : list (list term)) : list Qc :=
   vfield (exported_pv e par) y eqs.
 (* what it should compute: every parameter read from its own slot *)
-Definition spec_vf (ps : list string) (par y : list Qc) (eqs : list (list term)) : list Qc :=
-  vfield (fun p => par_at par (slot_of ps p)) y eqs.
+Definition spec_vf (ps all : list string) (par y : list Qc) (eqs : list (list term)) : list Qc :=
+  vfield (fun p => if mem p ps then par_at par (slot_of all p) else 0%Qc) y eqs.
 
 (* ------------------------------------------------------------------------------------------------ STPNT as compiled *)
 (* The literals are written without a kind suffix (`args(1) = 0.1`): gfortran reads them as default REAL
@@ -226,6 +243,6 @@ Definition emission_eqb (a b : emission) : bool :=
   list_eqb String.eqb (e_sig a) (e_sig b) && list_eqb Z.eqb (e_call a) (e_call b) &&
   list_eqb zqs_eqb (e_stpnt a) (e_stpnt b) && list_eqb zqs_eqb (e_stpnt_y a) (e_stpnt_y b) &&
   list_eqb zs_eqb (e_parnames a) (e_parnames b) && list_eqb zs_eqb (e_unames a) (e_unames b) &&
-  list_eqb zz_eqb (e_dfdp a) (e_dfdp b) && Z.eqb (e_ndim a) (e_ndim b) && Z.eqb (e_npar a) (e_npar b).
+  list_eqb zz_eqb (e_dfdp a) (e_dfdp b) && list_eqb Z.eqb (e_bvp a) (e_bvp b) && Z.eqb (e_ndim a) (e_ndim b) && Z.eqb (e_npar a) (e_npar b).
 Definition stpnt_eqb (a b : list (Z * Qc) * list (Z * Qc)) : bool :=
   list_eqb zq_eqb (fst a) (fst b) && list_eqb zq_eqb (snd a) (snd b).
